@@ -74,7 +74,7 @@ class Report:
                 return
         path = None
         if replay is not None or nfi:
-            d = os.path.join(VERIF, 'replays')
+            d = os.environ.get('VERIF_REPLAY_DIR') or os.path.join(VERIF, 'replays')
             os.makedirs(d, exist_ok=True)
             safe = ''.join(c if c.isalnum() or c in '._-' else '_' for c in key)[:120]
             path = os.path.join(d, '%s__%s.json' % (self.pid, safe))
@@ -125,8 +125,9 @@ class Report:
             self.errors.append('too few bounded evaluations for an exploration-level claim')
         ev = {'property_id': self.pid, 'tier': self.tier, 'seed': self.seed, 'level': level, 'coverage': cov,
               'assumptions': self.assumptions, 'wall_s': round(wall, 2), 'violations': len(self.violations)}
-        os.makedirs(os.path.join(VERIF, 'evidence'), exist_ok=True)
-        with open(os.path.join(VERIF, 'evidence', self.pid + '.json'), 'w') as f:
+        evdir = os.environ.get('VERIF_EVIDENCE_DIR') or os.path.join(VERIF, 'evidence')   # (redirected only by the mutation-campaign tool)
+        os.makedirs(evdir, exist_ok=True)
+        with open(os.path.join(evdir, self.pid + '.json'), 'w') as f:
             json.dump(ev, f, indent=1, default=str)
         for k in self.known_hit:
             print('KNOWN-FINDING: property=%s %s' % (self.pid, k['what']))
